@@ -5,6 +5,7 @@ package main
 
 import (
 	"bufio"
+	"os"
 	"fmt"
 	"io"
 	"os/exec"
@@ -51,6 +52,7 @@ const smtPrelude = `
 (define-fun wrap_u8 ((x Int)) Int (mod x 256))
 (define-fun go_quo ((x Int) (y Int)) Int (ite (>= x 0) (ite (> y 0) (div x y) (- (div x (- y)))) (ite (> y 0) (- (div (- x) y)) (div (- x) (- y)))))
 (define-fun go_rem ((x Int) (y Int)) Int (- x (* y (go_quo x y))))
+(define-fun fmt_int ((x Int)) String (ite (< x 0) (str.++ "-" (str.from_int (- x))) (str.from_int x)))
 (declare-fun json_esc (String) String)
 (declare-fun json_valid (String) Bool)
 `
@@ -61,6 +63,9 @@ type solverStats struct {
 	unsat    int64
 	unknown  int64
 	solverNs int64
+	hardTimeouts int64
+	fallbacks int64
+	wrapChecks int64
 }
 
 var gstats solverStats
@@ -75,6 +80,8 @@ type Solver struct {
 	log    io.Writer
 	dead   bool
 	tmoMs  int
+	frames [][]string
+	curTmo int
 }
 
 func NewSolver(bin string, tmoMs int) *Solver {
@@ -107,6 +114,7 @@ func (s *Solver) start() {
 	s.out = bufio.NewReaderSize(op, 1<<16)
 	s.depth = 0
 	s.dead = false
+	s.frames = nil
 	if strings.Contains(s.bin, "cvc5") {
 		s.send("(set-logic ALL)")
 	}
@@ -130,8 +138,85 @@ func (s *Solver) send(str string) {
 	}
 }
 
-func (s *Solver) Push() { s.send("(push 1)"); s.depth++ }
-func (s *Solver) Pop()  { s.send("(pop 1)"); s.depth-- }
+func (s *Solver) Push() {
+	s.send("(push 1)")
+	s.depth++
+	s.frames = append(s.frames, nil)
+}
+func (s *Solver) Pop() {
+	s.send("(pop 1)")
+	s.depth--
+	if len(s.frames) > 0 {
+		s.frames = s.frames[:len(s.frames)-1]
+	}
+}
+
+// SetTimeout changes the soft timeout of subsequent check-sat calls.
+func (s *Solver) SetTimeout(ms int) {
+	s.curTmo = ms
+	if strings.Contains(s.bin, "cvc5") {
+		return
+	}
+	s.send(fmt.Sprintf("(set-option :timeout %d)", ms))
+}
+
+func (s *Solver) record(cmd string) {
+	if len(s.frames) == 0 {
+		s.frames = append(s.frames, nil)
+	}
+	s.frames[len(s.frames)-1] = append(s.frames[len(s.frames)-1], cmd)
+}
+
+// Script renders the current assertion stack as a standalone SMT-LIB script.
+func (s *Solver) Script(extra string) string {
+	var sb strings.Builder
+	sb.WriteString("(set-logic ALL)\n")
+	sb.WriteString(strings.Replace(smtPrelude, "(set-option :produce-models true)", "", 1))
+	for _, f := range s.frames {
+		for _, c := range f {
+			sb.WriteString(c)
+			sb.WriteByte('\n')
+		}
+	}
+	if extra != "" {
+		sb.WriteString("(assert " + extra + ")\n")
+	}
+	sb.WriteString("(check-sat)\n")
+	return sb.String()
+}
+
+// CheckFallback decides stack+extra with the other installed solvers (one-shot).
+func (s *Solver) CheckFallback(extra string, tmoS int) SatResult {
+	f, err := os.CreateTemp("/verif/out", "fallback-*.smt2")
+	if err != nil {
+		return Unknown
+	}
+	defer os.Remove(f.Name())
+	f.WriteString(s.Script(extra))
+	f.Close()
+	for _, cmdline := range [][]string{
+		{"z3", fmt.Sprintf("-T:%d", tmoS), f.Name()},
+		{"cvc5", "--strings-exp", fmt.Sprintf("--tlimit=%d", tmoS*1000), f.Name()},
+	} {
+		t0 := time.Now()
+		out, _ := exec.Command(cmdline[0], cmdline[1:]...).CombinedOutput()
+		atomic.AddInt64(&gstats.solverNs, int64(time.Since(t0)))
+		atomic.AddInt64(&gstats.fallbacks, 1)
+		txt := string(out)
+		if strings.Contains(txt, "(error") {
+			continue
+		}
+		for _, line := range strings.Split(txt, "\n") {
+			switch strings.TrimSpace(line) {
+			case "unsat":
+				return Unsat
+			case "sat":
+				return Sat
+			}
+		}
+	}
+	return Unknown
+}
 
 // Reset pops everything asserted since start.
 func (s *Solver) ResetTo(depth int) {
@@ -141,11 +226,20 @@ func (s *Solver) ResetTo(depth int) {
 }
 
 func (s *Solver) Declare(name string, sort Sort) {
-	s.send(fmt.Sprintf("(declare-const %s %s)", name, sort.smt()))
+	c := fmt.Sprintf("(declare-const %s %s)", name, sort.smt())
+	s.record(c)
+	s.send(c)
+}
+
+func (s *Solver) DeclareRaw(c string) {
+	s.record(c)
+	s.send(c)
 }
 
 func (s *Solver) Assert(t string) {
-	s.send("(assert " + t + ")")
+	c := "(assert " + t + ")"
+	s.record(c)
+	s.send(c)
 }
 
 type SatResult int
@@ -163,50 +257,83 @@ func (s *Solver) readLine() (string, error) {
 	return strings.TrimSpace(line), err
 }
 
-// Check runs check-sat on the current assertion stack.
+// Check runs check-sat on the current assertion stack. A watchdog kills the
+// solver process when it ignores its soft timeout; the answer is then Unknown
+// and the solver is marked dead (the caller must abandon the current path).
 func (s *Solver) Check() SatResult {
 	t0 := time.Now()
+	if s.dead {
+		return Unknown
+	}
 	s.send("(check-sat)")
 	res := Unknown
-	for {
-		line, err := s.readLine()
-		if err != nil {
-			s.dead = true
-			break
-		}
-		if line == "" {
-			continue
-		}
-		if line == "sat" {
-			res = Sat
-			break
-		}
-		if line == "unsat" {
-			res = Unsat
-			break
-		}
-		if line == "unknown" || line == "timeout" {
-			res = Unknown
-			break
-		}
-		if strings.HasPrefix(line, "(error") {
-			// any error makes the answer inconclusive; drain the verdict that follows
-			if s.log != nil {
-				io.WriteString(s.log, "; SOLVER ERROR: "+line+"\n")
+	type lineRes struct {
+		line string
+		err  error
+	}
+	done := make(chan SatResult, 1)
+	go func() {
+		r := Unknown
+		for {
+			line, err := s.readLine()
+			if err != nil {
+				s.dead = true
+				break
 			}
-			lastSolverError.Store(line)
-			for {
-				l2, err := s.readLine()
-				if err != nil || l2 == "sat" || l2 == "unsat" || l2 == "unknown" {
-					break
+			if line == "" {
+				continue
+			}
+			if line == "sat" {
+				r = Sat
+				break
+			}
+			if line == "unsat" {
+				r = Unsat
+				break
+			}
+			if line == "unknown" || line == "timeout" {
+				r = Unknown
+				break
+			}
+			if strings.HasPrefix(line, "(error") {
+				// any error makes the answer inconclusive; drain the verdict that follows
+				if s.log != nil {
+					io.WriteString(s.log, "; SOLVER ERROR: "+line+"\n")
 				}
+				lastSolverError.Store(line)
+				for {
+					l2, err := s.readLine()
+					if err != nil || l2 == "sat" || l2 == "unsat" || l2 == "unknown" {
+						break
+					}
+				}
+				r = Unknown
+				break
 			}
-			res = Unknown
-			break
 		}
+		done <- r
+	}()
+	select {
+	case res = <-done:
+	case <-time.After(time.Duration(maxInt(s.tmoMs, s.curTmo))*time.Millisecond + 3*time.Second):
+		s.dead = true
+		s.cmd.Process.Kill()
+		<-done
+		res = Unknown
+		atomic.AddInt64(&gstats.hardTimeouts, 1)
 	}
 	atomic.AddInt64(&gstats.queries, 1)
 	atomic.AddInt64(&gstats.solverNs, int64(time.Since(t0)))
+	if d := time.Since(t0); d > 2*time.Second && slowLog {
+		last := ""
+		if n := len(s.frames); n > 0 && len(s.frames[n-1]) > 0 {
+			last = s.frames[n-1][len(s.frames[n-1])-1]
+		}
+		fmt.Fprintf(os.Stderr, "SLOW QUERY %.1fs -> %v: %s\n", d.Seconds(), res, last)
+		if slowDump {
+			os.WriteFile(fmt.Sprintf("/verif/out/slow-%d.smt2", time.Now().UnixNano()), []byte(s.Script("")), 0o644)
+		}
+	}
 	switch res {
 	case Sat:
 		atomic.AddInt64(&gstats.sat, 1)
@@ -219,6 +346,8 @@ func (s *Solver) Check() SatResult {
 }
 
 var lastSolverError atomic.Value
+var slowLog = os.Getenv("VERIF_SLOWLOG") != ""
+var slowDump = os.Getenv("VERIF_SLOWLOG") == "dump"
 
 // CheckWith checks the stack plus an extra assertion, leaving the stack unchanged.
 func (s *Solver) CheckWith(t string) SatResult {
@@ -441,4 +570,11 @@ func smtNot(t string) string {
 		return t[5 : len(t)-1]
 	}
 	return "(not " + t + ")"
+}
+
+func maxInt(a, b int) int {
+	if a > b {
+		return a
+	}
+	return b
 }
